@@ -607,12 +607,15 @@ class Interp:
         return sub.run(A.strip_docstring(fnode.body))
 
     def _call_closure(self, clo, args, kwargs=None):
+        """A closure runs in the scope it was DEFINED in (free variables of a function returned by a factory are the
+        factory's), falling back to the caller's scope for closures built by hand."""
+        home = clo.interp if isinstance(getattr(clo, "interp", None), Interp) else self
         if isinstance(clo.node, ast.Lambda):
-            sub = Interp(self.env, self.selfattrs, self.region, self.methods, self.cls_name, externals=self.externals)
+            sub = Interp(home.env, home.selfattrs, self.region, home.methods, home.cls_name, externals=self.externals)
             for p, a in zip([x.arg for x in clo.node.args.args], args):
                 sub.env[p] = a
             return sub.eval(clo.node.body)
-        return self.call_function(clo.node, args, kwargs or {})
+        return home.call_function(clo.node, args, kwargs or {})
 
     def exec_block(self, body):
         for st in body:
@@ -862,6 +865,10 @@ class Interp:
             return SHAPE
         if isinstance(a, str) and isinstance(b, str) and isinstance(op, ast.Add):
             return a + b
+        if isinstance(op, ast.Add) and isinstance(a, (str, bytes)) and isinstance(b, Obj) and b.name == "xmltext":
+            return b  # a document type line in front of a serialised element: still that element's text
+        if isinstance(a, bytes) and isinstance(b, bytes) and isinstance(op, ast.Add):
+            return a + b
         if isinstance(a, str) and isinstance(op, ast.Mult) and isinstance(b, Poly) and b.is_const():
             return a * int(b.const_value())
         if isinstance(b, str) and isinstance(op, ast.Mult) and isinstance(a, Poly) and a.is_const():
@@ -918,7 +925,7 @@ class Interp:
             raise Undecided("step limit")
         if isinstance(e, ast.Constant):
             v = e.value
-            if isinstance(v, bool) or v is None or isinstance(v, str):
+            if isinstance(v, bool) or v is None or isinstance(v, (str, bytes)):
                 return v
             if isinstance(v, (int, float)):
                 return to_poly(v)
@@ -1259,7 +1266,7 @@ class Interp:
             if isinstance(callee, PyFunc):
                 return callee.f(xa, xk)
             if isinstance(callee, Closure):
-                return self.call_function(callee.node, xa, xk)
+                return self._call_closure(callee, xa, xk)
             if isinstance(callee, Obj) and isinstance(callee.attrs.get("__call__"), PyFunc):
                 return callee.attrs["__call__"].f(xa, xk)
             if isinstance(callee, Obj) and "__call__" in self.externals:
@@ -1384,12 +1391,7 @@ class Interp:
             clo = self.env[f.id]
             args = self.eval_args(e.args)
             kwargs = self.eval_kwargs(e.keywords)
-            if isinstance(clo.node, ast.Lambda):
-                sub = Interp(self.env, self.selfattrs, self.region, self.methods, self.cls_name, externals=self.externals)
-                for p, a in zip([x.arg for x in clo.node.args.args], args):
-                    sub.env[p] = a
-                return sub.eval(clo.node.body)
-            return self.call_function(clo.node, args, kwargs)
+            return self._call_closure(clo, args, kwargs)
         if isinstance(f, ast.Attribute) and isinstance(f.value, ast.Name) and f.value.id == "self" and isinstance(self.selfattrs.get(self._mangle(name)), (PyFunc, Closure)):
             callee = self.selfattrs[self._mangle(name)]
             xa = self.eval_args(e.args)
